@@ -3,6 +3,7 @@ CONSTANTS
   MaxIn = 3
   ExtraCalls = 1
   DevUnderflowPanics = FALSE
+  DevBackrefInvalidUtf8 = FALSE
 SPECIFICATION Spec
 INVARIANTS StackNonEmpty NoPanic
 PROPERTIES Terminates EofStutters Progress
